@@ -115,6 +115,15 @@ func logged1[B, A any](which string, db dom[B], da dom[A], f func(B) A) func(B) 
 func encBool(b bool) any               { return b }
 func encOrd(o ord.Ordering) any        { return int(o) }
 func less[T int | string](a, b T) bool { return a < b }
+func weight[T int | string](a, b T) ord.Ordering {
+	switch {
+	case a < b:
+		return 7
+	case a > b:
+		return -3
+	}
+	return 5
+}
 func rev[T int | string](a, b T) ord.Ordering {
 	switch {
 	case a < b:
@@ -171,7 +180,10 @@ func eqExp[T any](d dom[T], inst func() eq.Eq[T]) experiment {
 	}
 }
 
-func ordExp[T any](d dom[T], inst func() ord.Ord[T]) experiment {
+func ordExp[T any](d dom[T], inst func() ord.Ord[T]) experiment { return ordExpEnc(d, encOrd, inst) }
+
+// ordExpEnc: the Ordering that comes back is recorded as a VALUE (enc), whatever it is
+func ordExpEnc[T any](d dom[T], enc func(ord.Ordering) any, inst func() ord.Ord[T]) experiment {
 	return func(c genCase, r *record) error {
 		a, err := d.dec(c.A)
 		if err != nil {
@@ -181,7 +193,7 @@ func ordExp[T any](d dom[T], inst func() ord.Ord[T]) experiment {
 		if err != nil {
 			return err
 		}
-		r.Res = int(inst().Compare(a, b))
+		r.Res = enc(inst().Compare(a, b))
 		return nil
 	}
 }
@@ -255,6 +267,7 @@ func experiments(tab []int) map[string]entry {
 	lenP := func(s string) int { return len(s) }
 	tabP := func(v int) string { return strTab[(id.enc(v).(int)*7)%len(strTab)] }
 	flipP := func(v int) int { return tab[len(tab)-id.enc(v).(int)] }
+	encRank := func(o ord.Ordering) any { return id.enc(int(o)) }
 	rotP := func(v int) int { return tab[(id.enc(v).(int)*3)%len(tab)] }
 	opS := func() func(string, string) string { return logged2("op", strDom, strDom.enc, concat) }
 	opN := func() func(int, int) int { return logged2("op", numDom, numDom.enc, sub) }
@@ -271,6 +284,32 @@ func experiments(tab []int) map[string]entry {
 		"eq.From/str":  S(eqExp(strDom, func() eq.Eq[string] { return eq.From[string](logged2("f", strDom, encBool, less[string])) })),
 		"ord.From/int": I(ordExp(id, func() ord.Ord[int] { return ord.From[int](logged2("f", id, encOrd, rev[int])) })),
 		"ord.From/str": S(ordExp(strDom, func() ord.Ord[string] { return ord.From[string](logged2("f", strDom, encOrd, rev[string])) })),
+
+		// wrapped functions that return what they like (outside LT / EQ / GT): the value must come back unchanged
+		"ord.From/diff/int": I(ordExp(id, func() ord.Ord[int] {
+			return ord.From[int](logged2("f", id, encOrd, func(a, b int) ord.Ordering { return ord.Ordering(id.enc(a).(int) - id.enc(b).(int)) }))
+		})),
+		"ord.From/diff/str": S(ordExp(strDom, func() ord.Ord[string] {
+			return ord.From[string](logged2("f", strDom, encOrd, func(a, b string) ord.Ordering { return ord.Ordering(len(a) - len(b)) }))
+		})),
+		"ord.From/weight/int": I(ordExp(id, func() ord.Ord[int] { return ord.From[int](logged2("f", id, encOrd, weight[int])) })),
+		"ord.From/weight/str": S(ordExp(strDom, func() ord.Ord[string] { return ord.From[string](logged2("f", strDom, encOrd, weight[string])) })),
+		"ord.From/const/str": S(ordExp(strDom, func() ord.Ord[string] {
+			return ord.From[string](logged2("f", strDom, encOrd, func(a, b string) ord.Ordering { return 42 }))
+		})),
+		// the first argument itself (MinInt64 .. MaxInt64) as the Ordering; recorded as its rank in the table
+		"ord.From/first/int": I(ordExpEnc(id, encRank, func() ord.Ord[int] {
+			return ord.From[int](logged2("f", id, encRank, func(a, b int) ord.Ordering { return ord.Ordering(a) }))
+		})),
+		"eq.From/true/str": S(eqExp(strDom, func() eq.Eq[string] {
+			return eq.From[string](logged2("f", strDom, encBool, func(a, b string) bool { return true }))
+		})),
+		"eq.From/false/int": I(eqExp(id, func() eq.Eq[int] {
+			return eq.From[int](logged2("f", id, encBool, func(a, b int) bool { return false }))
+		})),
+		"ord.ContraMap/len/diff": S(ordExp(strDom, func() ord.Ord[string] {
+			return ord.ContraMap[int, string]{Ord: ord.From[int](logged2("base", numDom, encOrd, func(a, b int) ord.Ordering { return ord.Ordering(a - b) })), ContraMap: logged1("proj", strDom, numDom, lenP)}
+		})),
 
 		// From wrapping the method values of the built-in instances
 		"eq.From/eq.Int.Equal":        I(eqExp(id, func() eq.Eq[int] { return eq.From[int](eq.Int.Equal) })),
